@@ -545,6 +545,7 @@ def run_impl(case, B=None, extra_callbacks=(), ckpt_path=None, N=None):
         rec["error"] = f"{type(e).__name__}: {e}"
         return B, rec
     rec["opt"], rec["lr"] = opt_state_of(tr.optimizers[0], B)
+    rec["tens_final"], rec["traj_final"] = tensor_snapshot(B), snapshot(B)   # after fit returned
     rec["probe_seen"] = {f"{w}{ci}": list(c.seen) for w, ci, c in B.probes}
     rec["trainer"] = tr
     return B, rec
